@@ -893,23 +893,32 @@ def _mismatch_unit(ctx, family):
                     ctx.violation(f"roundtrip-load-raised-{family}", {**desc, "stage": "control", "got": _err(e)})
                     continue
             ctx.case(desc, nontrivial=True, cls=f"mismatch/{C.__name__}/{label}")
-            ctx.monitor("mismatch_loads_judged")
-            try:
-                got = C.deserialize(path, eb, key=ctx.key(8), **kb)
-            except Exception as e:
-                ctx.monitor("mismatch_loads_raised")
-                ctx.monitor(f"mismatch_raised/{type(e).__name__}")
-                continue
-            sA, sB = _serial_seq(A), _serial_seq(B)
-            det = {**desc, "saved_leaf_shapes": [s[1] if s[0] == "a" else s[1] for s in sA],
-                   "skeleton_leaf_shapes": [s[1] if s[0] == "a" else s[1] for s in sB],
-                   "got": f"an object of type {type(got).__name__}", "want": "an exception"}
-            if len(sB) < len(sA):
-                # the skeleton was filled from a prefix of the file and the rest of the file was ignored
-                det["skeleton_is_exact_prefix_of_file"] = sA[:len(sB)] == sB
-                ctx.violation("deserialize-ignores-trailing-leaves", det)
-            else:
-                ctx.violation(f"mismatched-load-returns-object-{family}", det)
+            # the mismatched load must fail loudly through every spelling of the path that finds the file
+            import pathlib
+
+            spellings = [("suffix", path), ("no-suffix", path[:-4])]
+            if i % 3 == 0:
+                spellings.append(("pathlib-no-suffix", pathlib.Path(path[:-4])))
+            for sp_name, sp in spellings:
+                ctx.monitor("mismatch_loads_judged")
+                ctx.monitor(f"mismatch_load_spelling/{sp_name}")
+                try:
+                    got = C.deserialize(sp, eb, key=ctx.key(8), **kb)
+                except Exception as e:
+                    ctx.monitor("mismatch_loads_raised")
+                    ctx.monitor(f"mismatch_raised/{type(e).__name__}")
+                    continue
+                sA, sB = _serial_seq(A), _serial_seq(B)
+                det = {**desc, "load_path_spelling": sp_name,
+                       "saved_leaf_shapes": [s[1] if s[0] == "a" else s[1] for s in sA],
+                       "skeleton_leaf_shapes": [s[1] if s[0] == "a" else s[1] for s in sB],
+                       "got": f"an object of type {type(got).__name__}", "want": "an exception"}
+                if len(sB) < len(sA):
+                    # the skeleton was filled from a prefix of the file and the rest of the file was ignored
+                    det["skeleton_is_exact_prefix_of_file"] = sA[:len(sB)] == sB
+                    ctx.violation("deserialize-ignores-trailing-leaves", det)
+                else:
+                    ctx.violation(f"mismatched-load-returns-object-{family}", det)
         ctx.notes["files_left_before_cleanup"] = len(T.files())
     ctx.require("mismatch_loads_judged", ctx.n(40, 300))
     ctx.require("mismatch_control_roundtrips", 5)
